@@ -268,6 +268,13 @@ impl IncScn {
                 }
             }
         }
+        if self.property == "C12" {
+            if let AssetInfo::NativeToken { denom } = &reward {
+                for u in &everyone {
+                    w.mint_native(u, FUND, &denom.to_uppercase());
+                }
+            }
+        }
         let foreign = if self.property == "C12" {
             let t = w.new_cw20("xtok", 6, &[], OWNER);
             for u in &everyone {
@@ -490,6 +497,10 @@ impl Scenario for IncScn {
                     v.push(IAct::ExpandFlow { id: *id, amount: 4000, funds: "exact@far".into(), by: f.creator.clone() });
                     // the message names an unrelated cw20 token (approved by the sender) instead of the flow's reward asset
                     v.push(IAct::ExpandFlow { id: *id, amount: 6000, funds: "foreign_cw20".into(), by: f.creator.clone() });
+                    // native rewards: the message names (and funds) the reward denom in upper case, which is a different coin
+                    if h.reward.is_native_token() {
+                        v.push(IAct::ExpandFlow { id: *id, amount: 6000, funds: "case_variant_denom".into(), by: f.creator.clone() });
+                    }
                     v.push(IAct::CloseFlow { id: *id, by: f.creator.clone() });
                     v.push(IAct::CloseFlow { id: *id, by: OWNER.into() });
                     v.push(IAct::CloseFlow { id: *id, by: MALLORY.into() });
@@ -952,7 +963,13 @@ impl Scenario for IncScn {
                 } else {
                     None
                 };
-                let (msg_asset, coins) = if funds == "foreign_cw20" {
+                let (msg_asset, coins) = if funds == "case_variant_denom" {
+                    let upper = match &h.reward {
+                        AssetInfo::NativeToken { denom } => denom.to_uppercase(),
+                        _ => unreachable!(),
+                    };
+                    (asset(&native(&upper), amt), vec![coin(amt, &upper)])
+                } else if funds == "foreign_cw20" {
                     let x = h.foreign.as_ref().expect("foreign token");
                     set_allowance(w, x, by, &h.incentive, amt);
                     if let AssetInfo::Token { contract_addr } = &h.reward {
